@@ -160,10 +160,21 @@ pub fn main(a: &Args) {
         } } }
         for _ in 0..a.num("random-batches", 20) {
             let k = rng.range(2, 4);
-            let b: Vec<Msg> = (0..k).map(|i| m(batch_kinds[rng.below(batch_kinds.len())], rng.below(2), ["B", "C", "D"][i % 3])).collect();
+            // protocol-conforming batches: change/save/close only on open documents, open only on closed ones
+            let mut open = [true, true];
+            let mut b: Vec<Msg> = Vec::new();
+            for i in 0..k {
+                let u = rng.below(2);
+                let mut kind = batch_kinds[rng.below(batch_kinds.len())];
+                if !open[u] { kind = "open"; }
+                if kind == "close" { open[u] = false; }
+                if kind == "open" { open[u] = true; }
+                b.push(m(kind, u, ["B", "C", "D"][i % 3]));
+            }
             let ps = perms(k);
             let ord = ps[rng.below(ps.len())].clone();
-            run(&[m("open", 0, "A"), m("open", 1, "A")], &b, &ord, &[m("change", 0, "D")], &mut out);
+            let tail = if open[0] { m("change", 0, "D") } else { m("open", 0, "D") };
+            run(&[m("open", 0, "A"), m("open", 1, "A")], &b, &ord, &[tail], &mut out);
         }
     });
     let _ = std::fs::remove_dir_all(&base);
